@@ -14,6 +14,16 @@ TRUSTED = ["object identity (no node shared between two returned ASTs) is not ex
            "that parse() really re-initialises every field is the model's reinit; tied by the call-sequence runs below and the field inventory obligation"]
 ASSUMPTIONS = []
 
+# programs that exercise every place where CGenerator changes indent_level (a reused generator must
+# come back to level 0 after each of them, whatever follows)
+GEN_STATE = [
+    "struct E {};", "union U {} u;", "typedef struct {} unit_t;", "struct S { struct {} in; int a; } s;", "enum { A0 };", "enum Em { };",
+    "void f(void) {}", "void f(void) { {} { ; } }", "void f(int x) { switch (x) { } }", "void f(int x) { switch (x) { case 1: ; } }",
+    "void f(void) { for (;;) ; while (1) ; do ; while (0); if (1) ; else ; }", "struct T { int a; } t = { 1 };", "int a[] = { };",
+    "void f(void) { L: ; }", "void f(void) { if (1) { } else { } }", "struct P { int x; struct Q { int y; } q; } p;",
+    "void f(void) {\n#pragma omp x\n}", "_Static_assert(1, \"m\");", "void f(void) { struct L { int a; } l; union { int b; } m; }",
+]
+
 CLASH = [
     "typedef int T; T x;", "int T; int y = T * 2;", "typedef char T; void f(void) { T T; }", "void f(void) { { { typedef int U; U u;",
     "typedef int A; typedef A B; B b", "struct S { int a; ", "int f(int T) { return T; }", "typedef int T; int g(T);", "T * x;", "(T)(x);",
@@ -95,6 +105,9 @@ def run_sequence(args):
             t2 = CGenerator().visit(used[1])
             if t1 != t2:
                 problems.append((k, "a reused CGenerator produced different text at call %d (indent_level=%r)" % (k, g.indent_level)))
+            elif g.indent_level != 0:
+                problems.append((k, "after a successful visit the reused CGenerator is left at indent_level=%r (a fresh one is at 0): the next visit will differ" % g.indent_level))
+                g = CGenerator()
     return problems
 
 
@@ -154,9 +167,12 @@ def run(ctx):
     for a in rng.sample(setups, 12 if ctx.quick() else len(setups)):
         for b in rng.sample(setups, 6 if ctx.quick() else 30):
             seqs.append(([a, b] + rng.sample(PROBES, 4),))
+    for a in GEN_STATE:                       # each generator-state probe, followed by programs whose text shows the indent
+        seqs.append(([a, "struct V { int a; struct { int b; } c; }; void g(void) { if (1) { x = 1; } }", a, pool[0]],))
+    seqs.append((GEN_STATE + GEN_STATE,))
     seqs.append((CLASH + CLASH,))
     seqs.append(([pool[0], pool[0], CLASH[3], pool[0]],))
-    ctx.rule("%d sequences of 2-16 parse calls on one CParser instance (systematic: 6 file-scope declarations of a name x 15 continuations that succeed or fail at nesting depth 0-3 / inside a struct, for-init, initializer, switch, pragma, after a linemarker, each followed by each of 15 probes whose parse depends on what the name is; pairs of such setups; random: valid programs of the pool, programs truncated at arbitrary tokens - leaving scopes open -, programs with clashing typedef/variable names, linemarkers, lexer errors), each call compared (AST incl. coordinates, or exception message) with a fresh instance; ASTs of different calls must share no node object; the same CGenerator instance is reused across the successful calls; a CLexer is reused through input() after being abandoned mid-stream" % len(seqs))
+    ctx.rule("%d sequences of 2-16 parse calls on one CParser instance (systematic: 6 file-scope declarations of a name x 15 continuations that succeed or fail at nesting depth 0-3 / inside a struct, for-init, initializer, switch, pragma, after a linemarker, each followed by each of 15 probes whose parse depends on what the name is; pairs of such setups; 19 generator-state probes (empty / nested struct, union, enum bodies, empty blocks and switches, pragmas) each followed by programs whose text shows the indentation; random: valid programs of the pool, programs truncated at arbitrary tokens - leaving scopes open -, programs with clashing typedef/variable names, linemarkers, lexer errors), each call compared (AST incl. coordinates, or exception message) with a fresh instance; ASTs of different calls must share no node object; the same CGenerator instance is reused across the successful calls; a CLexer is reused through input() after being abandoned mid-stream" % len(seqs))
     res = pmap(run_sequence, seqs)
     for (texts,), probs in zip(seqs, res):
         for k, why in probs:
